@@ -821,3 +821,283 @@ Proof.
   intros cfg st c. destruct (mfilter cfg st c) as [st' r] eqn:H. exists st', r. split; auto.
   destruct (mfilter_cases _ _ _ _ _ H) as [X|[X|X]]; [right|right|left]; tauto.
 Qed.
+
+(* ---- the replay memory has no capacity: it is exactly the scan-blocked hashes --------- *)
+
+Lemma hmem_in : forall h l, In h l -> hmem h l = true.
+Proof.
+  induction l as [|x l IH]; intros H; [contradiction|]. cbn.
+  destruct H as [->|H]; [now rewrite zl_eq_refl|]. destruct (zl_eq x h); auto.
+Qed.
+
+Definition step_blocked (o : option mresult) : list (list Z) :=
+  match o with Some r => if scan_blocked r then [r_hash r] else [] | None => [] end.
+
+Lemma mstep_blocked_exact : forall cfg st op,
+  m_blocked (fst (mstep cfg st op)) = m_blocked st ++ step_blocked (snd (mstep cfg st op)).
+Proof.
+  intros cfg st op. destruct op; cbn [mstep fst snd step_blocked]; try now rewrite app_nil_r.
+  - destruct (mfilter cfg st content) as [st' r] eqn:F. cbn [fst snd].
+    destruct (mfilter_state _ _ _ _ _ F) as (_ & _ & _ & _ & _ & _ & _ & B & _ & Hh).
+    rewrite B. unfold step_blocked, scan_blocked.
+    destruct (mfilter_cases _ _ _ _ _ F) as [X|[X|X]].
+    + destruct X as (K & _). rewrite K. cbn. now rewrite app_nil_r.
+    + destruct X as (K & A & _ & _ & _ & Hm). rewrite K, A, Hm. cbn. now rewrite app_nil_r.
+    + destruct X as (K & _ & _ & _ & _ & Hm). rewrite K, Hm, Hh. cbn.
+      destruct (r_allowed r); cbn; auto. now rewrite app_nil_r.
+  - destruct (c_adaptive cfg); cbn; now rewrite app_nil_r.
+Qed.
+
+Lemma mrun_blocked_exact : forall cfg ops st,
+  m_blocked (fst (mrun cfg st ops)) =
+  m_blocked st ++ map r_hash (filter scan_blocked (snd (mrun cfg st ops))).
+Proof.
+  intros cfg. induction ops as [|op ops IH]; intros st; cbn [mrun].
+  - cbn. now rewrite app_nil_r.
+  - pose proof (mstep_blocked_exact cfg st op) as S1.
+    destruct (mstep cfg st op) as [st1 o]. cbn [fst snd] in S1.
+    specialize (IH st1). destruct (mrun cfg st1 ops) as [st2 rs]. cbn [fst snd] in *.
+    rewrite IH, S1, <- app_assoc. f_equal.
+    destruct o as [r|]; cbn [step_blocked filter map]; auto.
+    destruct (scan_blocked r); reflexivity.
+Qed.
+
+Lemma replay_memory_unbounded_all :
+  (forall cfg ops st,
+     m_blocked (fst (mrun cfg st ops)) =
+     m_blocked st ++ map r_hash (filter scan_blocked (snd (mrun cfg st ops)))) /\
+  (forall cfg ops st,
+     length (m_blocked (fst (mrun cfg st ops))) =
+     (length (m_blocked st) + length (filter scan_blocked (snd (mrun cfg st ops))))%nat) /\
+  (forall cfg ops st r,
+     In r (snd (mrun cfg st ops)) -> r_kind r = Scanned -> r_allowed r = false ->
+     forall ops2 c', c_hash cfg c' = r_hash r ->
+     r_allowed (snd (mfilter cfg (fst (mrun cfg (fst (mrun cfg st ops)) ops2)) c')) = false).
+Proof.
+  split; [exact mrun_blocked_exact | split].
+  - intros. rewrite mrun_blocked_exact, app_length, map_length. reflexivity.
+  - intros cfg ops st r Hin K A ops2 c' Eh.
+    assert (B : hmem (r_hash r) (m_blocked (fst (mrun cfg st ops))) = true).
+    { rewrite mrun_blocked_exact, hmem_app. apply orb_true_iff. right. apply hmem_in.
+      apply in_map. apply filter_In. split; auto. unfold scan_blocked. now rewrite K, A. }
+    pose proof (mrun_blocked_mono cfg ops2 _ _ B) as B2.
+    destruct (mfilter cfg (fst (mrun cfg (fst (mrun cfg st ops)) ops2)) c') as [st3 r3] eqn:F. cbn [snd].
+    destruct (mfilter_cases _ _ _ _ _ F) as [X|[X|X]]; try tauto.
+    destruct X as (_ & _ & _ & _ & _ & N). rewrite Eh in N. congruence.
+Qed.
+
+(* ---- the shipped structural validators, exactly ----------------------------------------- *)
+
+Section JsonInd.
+  Variable P : json -> Prop.
+  Hypothesis HA : P JAtom.
+  Hypothesis HL : forall l, Forall P l -> P (JArr l).
+  Hypothesis HO : forall l, Forall P l -> P (JObj l).
+  Fixpoint json_ind' (t : json) : P t :=
+    match t with
+    | JAtom => HA
+    | JArr l => HL l ((fix go (l : list json) : Forall P l :=
+                         match l with [] => Forall_nil P | v :: r => Forall_cons v (json_ind' v) (go r) end) l)
+    | JObj l => HO l ((fix go (l : list json) : Forall P l :=
+                         match l with [] => Forall_nil P | v :: r => Forall_cons v (json_ind' v) (go r) end) l)
+    end.
+End JsonInd.
+
+Lemma zmax_list_ge : forall l x, In x l -> x <= zmax_list l.
+Proof. induction l as [|y l IH]; intros x H; [contradiction|]. cbn. destruct H as [->|H]; [lia|]. specialize (IH x H). unfold zmax_list in IH. lia. Qed.
+Lemma zmax_list_nonneg : forall l, 0 <= zmax_list l.
+Proof. induction l; cbn; [lia|]. unfold zmax_list in IHl. lia. Qed.
+Lemma zmax_list_attained : forall l, zmax_list l = 0 \/ In (zmax_list l) l.
+Proof.
+  induction l as [|y l IH]; cbn; [now left|]. fold (zmax_list l).
+  destruct (Z.max_spec y (zmax_list l)) as [[_ E]|[_ E]]; rewrite E.
+  - destruct IH as [IH|IH]; [left; exact IH | right; right; exact IH].
+  - right. now left.
+Qed.
+
+Lemma max_ne_ge_acc : forall xs x, x <= max_ne x xs.
+Proof. unfold max_ne. induction xs as [|y xs IH]; intros x; cbn; [lia|]. specialize (IH (Z.max x y)). lia. Qed.
+Lemma max_ne_ge : forall xs x y, In y (x :: xs) -> y <= max_ne x xs.
+Proof.
+  unfold max_ne. induction xs as [|z xs IH]; intros x y H; cbn.
+  - destruct H as [->|[]]. lia.
+  - destruct H as [->|[->|H]].
+    + pose proof (max_ne_ge_acc xs (Z.max y z)). unfold max_ne in *. lia.
+    + pose proof (max_ne_ge_acc xs (Z.max x y)). unfold max_ne in *. lia.
+    + apply IH. now right.
+Qed.
+Lemma max_ne_attained : forall xs x, In (max_ne x xs) (x :: xs).
+Proof.
+  unfold max_ne. induction xs as [|z xs IH]; intros x; cbn [fold_left]; [now left|].
+  destruct (IH (Z.max x z)) as [E|E].
+  - rewrite <- E. destruct (Z.max_spec x z) as [[_ M]|[_ M]]; rewrite M; [right; now left | now left].
+  - right. now right.
+Qed.
+
+Lemma depth_nonneg : forall t, 0 <= depth t.
+Proof.
+  destruct t as [|l|l]; cbn [depth]; [lia| |]; pose proof (zmax_list_nonneg (map depth l)); lia.
+Qed.
+
+(* _measure_depth started at `cur`: the exact value while the limit is not
+   exceeded, and above the limit exactly when the real depth is *)
+Definition measure_ok (md : Z) (t : json) : Prop :=
+  forall cur,
+    (md < cur -> measure_depth md t cur = cur) /\
+    (cur <= md ->
+       (cur + depth t <= md -> measure_depth md t cur = cur + depth t) /\
+       (md < cur + depth t -> md < measure_depth md t cur)).
+
+Lemma measure_children : forall md l, Forall (measure_ok md) l -> forall cur, cur <= md ->
+  let ms := map (fun v => measure_depth md v (cur + 1)) l in
+  let D := zmax_list (map depth l) in
+  (cur + (1 + D) <= md -> match ms with [] => cur + 1 | x :: xs => max_ne x xs end = cur + (1 + D)) /\
+  (md < cur + (1 + D) -> md < match ms with [] => cur + 1 | x :: xs => max_ne x xs end).
+Proof.
+  intros md l HF cur Hc ms D.
+  destruct l as [|v l]; [cbn in *; subst D; cbn; split; intros; lia|].
+  subst ms. cbn [map]. cbv beta iota.
+  set (f := fun v => measure_depth md v (cur + 1)).
+  change (measure_depth md v (cur + 1)) with (f v).
+  set (M := max_ne (f v) (map f l)).
+  assert (HM1 : In M (f v :: map f l)) by apply max_ne_attained.
+  assert (HM2 : forall y, In y (f v :: map f l) -> y <= M) by (intros y Hy; now apply max_ne_ge).
+  clearbody M.
+  assert (Hx : forall w, In w (v :: l) -> In (f w) (f v :: map f l)).
+  { intros w Hw. change (f v :: map f l) with (map f (v :: l)). now apply in_map. }
+  assert (Hd : forall w, In w (v :: l) -> depth w <= D).
+  { intros w Hw. apply zmax_list_ge. now apply in_map. }
+  assert (HD0 : 0 <= D) by apply zmax_list_nonneg.
+  assert (HDa : D = 0 \/ exists w, In w (v :: l) /\ depth w = D).
+  { destruct (zmax_list_attained (map depth (v :: l))) as [E|E]; fold D in E; [now left|right].
+    apply in_map_iff in E. destruct E as (w & Ew & Hw). exists w. auto. }
+  rewrite Forall_forall in HF.
+  split.
+  - intros Hle.
+    assert (Hex : forall w, In w (v :: l) -> f w = cur + 1 + depth w).
+    { intros w Hw. destruct (HF w Hw (cur + 1)) as (_ & H2). specialize (Hd w Hw).
+      destruct (H2 ltac:(lia)) as (E & _). apply E. lia. }
+    apply Z.le_antisymm.
+    + change (f v :: map f l) with (map f (v :: l)) in HM1. apply in_map_iff in HM1.
+      destruct HM1 as (w & Ew & Hw). rewrite <- Ew, (Hex w Hw). specialize (Hd w Hw). lia.
+    + destruct HDa as [E|(w & Hw & E)].
+      * pose proof (HM2 _ (Hx v (or_introl eq_refl))) as G. rewrite (Hex v (or_introl eq_refl)) in G.
+        pose proof (depth_nonneg v). lia.
+      * pose proof (HM2 _ (Hx w Hw)) as G. rewrite (Hex w Hw) in G. lia.
+  - intros Hgt.
+    assert (Hw' : exists w, In w (v :: l) /\ md < cur + 1 + depth w).
+    { destruct HDa as [E|(w & Hw & E)].
+      - exists v. split; [now left|]. pose proof (depth_nonneg v). lia.
+      - exists w. split; auto. lia. }
+    destruct Hw' as (w & Hw & E).
+    pose proof (HM2 _ (Hx w Hw)) as G. unfold f in G.
+    destruct (HF w Hw (cur + 1)) as (H1 & H2).
+    destruct (Z_lt_le_dec md (cur + 1)) as [Hlt|Hge].
+    + rewrite (H1 Hlt) in G. lia.
+    + destruct (H2 Hge) as (_ & H3). specialize (H3 ltac:(lia)). lia.
+Qed.
+
+Lemma measure_depth_ok : forall md t, measure_ok md t.
+Proof.
+  intros md. induction t as [|l IH|l IH] using json_ind'; intros cur.
+  - cbn. destruct (md <? cur) eqn:C; split; intros; try split; intros; lia.
+  - cbn [measure_depth depth]. destruct (md <? cur) eqn:C; split; intros H; try lia.
+    exact (measure_children md l IH cur H).
+  - cbn [measure_depth depth]. destruct (md <? cur) eqn:C; split; intros H; try lia.
+    exact (measure_children md l IH cur H).
+Qed.
+
+Lemma measure_depth_limit : forall md t, (md <? measure_depth md t 0) = (md <? depth t).
+Proof.
+  intros md t. destruct (measure_depth_ok md t 0) as (H1 & H2).
+  destruct (Z_lt_le_dec md 0) as [Hn|Hp].
+  - rewrite (H1 Hn). pose proof (depth_nonneg t). lia.
+  - destruct (H2 Hp) as (E & G). destruct (Z_lt_le_dec md (depth t)) as [Hd|Hd].
+    + specialize (G ltac:(lia)). lia.
+    + rewrite (E ltac:(lia)). lia.
+Qed.
+
+Lemma v_json_exact : forall md mx parse c,
+  (v_json md mx parse c = VRet true false \/ v_json md mx parse c = VRet false true) /\
+  (v_json md mx parse c = VRet true false <->
+   Z.of_nat (length c) <= mx /\ exists t, parse c = PTree t /\ depth t <= md).
+Proof.
+  intros md mx parse c. unfold v_json.
+  destruct (mx <? Z.of_nat (length c)) eqn:L.
+  - split; [now right|]. split; [discriminate | intros [H _]; lia].
+  - destruct (parse c) as [t|] eqn:Pc.
+    + rewrite measure_depth_limit. destruct (md <? depth t) eqn:Dp.
+      * split; [now right|]. split; [discriminate|]. intros (_ & t' & E & Hd). inversion E; subst. lia.
+      * split; [now left|]. split; auto. intros _. split; [lia|]. exists t. split; auto. lia.
+    + split; [now right|]. split; [discriminate|]. intros (_ & t' & E & _). discriminate.
+Qed.
+
+Lemma v_length_exact : forall mn mx c,
+  (v_length mn mx c = VRet true false \/ v_length mn mx c = VRet false true) /\
+  (v_length mn mx c = VRet true false <-> mn <= Z.of_nat (length c) <= mx).
+Proof.
+  intros mn mx c. unfold v_length.
+  destruct (Z.of_nat (length c) <? mn) eqn:A; [split; [now right | split; [discriminate | lia]]|].
+  destruct (mx <? Z.of_nat (length c)) eqn:B; [split; [now right | split; [discriminate | lia]]|].
+  split; [now left | split; auto; lia].
+Qed.
+
+Lemma v_charset_exact : forall ac an c,
+  (v_charset ac an c = VRet true false \/ v_charset ac an c = VRet false true) /\
+  (v_charset ac an c = VRet true false <->
+   (an = true \/ forall x, In x c -> x <> 0) /\ (ac = true \/ forall x, In x c -> is_ctrl x = false)).
+Proof.
+  intros ac an c. unfold v_charset.
+  destruct (negb an && existsb (fun x => x =? 0) c) eqn:A.
+  - split; [now right|]. split; [discriminate|]. intros [[->|H] _]; [discriminate|].
+    apply andb_prop in A. destruct A as [_ A]. apply existsb_exists in A. destruct A as (x & Hx & E).
+    specialize (H x Hx). lia.
+  - destruct (negb ac && existsb is_ctrl c) eqn:B.
+    + split; [now right|]. split; [discriminate|]. intros [_ [->|H]]; [discriminate|].
+      apply andb_prop in B. destruct B as [_ B]. apply existsb_exists in B. destruct B as (x & Hx & E).
+      rewrite (H x Hx) in E. discriminate.
+    + split; [now left|]. split; auto. intros _. split.
+      * destruct an; [now left|right]. cbn in A. intros x Hx E. subst x.
+        assert (existsb (fun x => x =? 0) c = true) by (apply existsb_exists; exists 0; split; auto).
+        congruence.
+      * destruct ac; [now left|right]. cbn in B. intros x Hx. destruct (is_ctrl x) eqn:E; auto.
+        assert (existsb is_ctrl c = true) by (apply existsb_exists; exists x; split; auto). congruence.
+Qed.
+
+(* check() allows only what every shipped validator in the list accepts, in
+   terms of the INPUT: its length, its characters, and for JSONValidator that
+   json.loads returns a document nested no deeper than max_depth *)
+Lemma shipped_validators_all :
+  (forall md t, (md <? measure_depth md t 0) = (md <? depth t)) /\
+  (forall md mx parse c,
+     (v_json md mx parse c = VRet true false \/ v_json md mx parse c = VRet false true) /\
+     (v_json md mx parse c = VRet true false <->
+      Z.of_nat (length c) <= mx /\ exists t, parse c = PTree t /\ depth t <= md)) /\
+  (forall mn mx c,
+     (v_length mn mx c = VRet true false \/ v_length mn mx c = VRet false true) /\
+     (v_length mn mx c = VRet true false <-> mn <= Z.of_nat (length c) <= mx)) /\
+  (forall ac an c,
+     (v_charset ac an c = VRet true false \/ v_charset ac an c = VRet false true) /\
+     (v_charset ac an c = VRet true false <->
+      (an = true \/ forall x, In x c -> x <> 0) /\ (ac = true \/ forall x, In x c -> is_ctrl x = false))) /\
+  (forall cc vals st c st' r, icheck cc vals st c = (st', IOk r) -> ir_allowed r = true ->
+     (forall md mx parse, In (v_json md mx parse) vals ->
+        Z.of_nat (length c) <= mx /\ exists t, parse c = PTree t /\ depth t <= md) /\
+     (forall mn mx, In (v_length mn mx) vals -> mn <= Z.of_nat (length c) <= mx) /\
+     (forall ac an, In (v_charset ac an) vals ->
+        (an = true \/ forall x, In x c -> x <> 0) /\ (ac = true \/ forall x, In x c -> is_ctrl x = false))).
+Proof.
+  split; [exact measure_depth_limit | split; [exact v_json_exact | split; [exact v_length_exact | split; [exact v_charset_exact|]]]].
+  intros cc vals st c st' r H A.
+  destruct (i_allowed_sound _ _ _ _ _ _ H A) as (_ & V & _).
+  split; [|split].
+  - intros md mx parse Hin. destruct (V _ Hin) as (valid & e & E & Hor).
+    destruct (v_json_exact md mx parse c) as ([X|X] & Y); [now apply Y|].
+    rewrite X in E. inversion E; subst. destruct Hor; discriminate.
+  - intros mn mx Hin. destruct (V _ Hin) as (valid & e & E & Hor).
+    destruct (v_length_exact mn mx c) as ([X|X] & Y); [now apply Y|].
+    rewrite X in E. inversion E; subst. destruct Hor; discriminate.
+  - intros ac an Hin. destruct (V _ Hin) as (valid & e & E & Hor).
+    destruct (v_charset_exact ac an c) as ([X|X] & Y); [now apply Y|].
+    rewrite X in E. inversion E; subst. destruct Hor; discriminate.
+Qed.
